@@ -186,7 +186,7 @@ def _kind_stats(prog, stats):
 
 def model_line(case):
     tree1 = _rig.parse(text_of(case))
-    return dumps([Sym('c05'), [_EES, _CLASSES], _enc(tree1)])
+    return dumps([Sym('c05'), [_EES, _CLASSES, [[k, v] for k, v in sorted(G.event_meanings().items())]], _enc(tree1)])
 
 
 def model_obs(case, ans):
